@@ -16,8 +16,12 @@ def alpn_extra(prop, tier, seed):
                 lens.add(rnd.randint(1, MAXLEN))
             lens = sorted(lens)
         for bi in range(0, len(lens), 2000):
-            ops = [dict(op="RT", pfx=pfx, n=n) for n in lens[bi:bi + 2000]]
+            ops = [dict(op="RT", pfx=pfx, n=n, alpha="b64") for n in lens[bi:bi + 2000]]
             out.append(dict(id="rt_%s_%d" % (pfx, bi), ops=ops))
+        # other payload alphabets (the property speaks of every payload): percent signs / format verbs, printable ASCII, any byte
+        alens = sorted(set([1, 2, budget - 1, budget, budget + 1, 3 * budget + 5, 100 * budget, 101 * budget + 1] + [rnd.randint(1, MAXLEN // 3) for _ in range(60 if tier == "quick" else 3000)]))
+        for alpha in ("pct", "print", "bytes"):
+            out.append(dict(id="rt_%s_%s" % (pfx, alpha), ops=[dict(op="RT", pfx=pfx, n=n, alpha=alpha) for n in alens]))
         mal = [dict(op="Mal", pfx=pfx, cls=c) for c in ["bare", "short1", "short2", "nodash", "onlydash", "mixedshort", "empties", "none"]]
         mal += [dict(op="Mal", pfx=pfx, cls="random") for _ in range(200 if tier == "quick" else 5000)]
         out.append(dict(id="mal_%s" % pfx, ops=mal))
@@ -37,7 +41,7 @@ def alpn_family():
         gen=[], extra=alpn_extra,
         rule={"*": "RT lines: the real Break/Combine on a seeded random base64 payload of length n, also with unrelated / other-prefix / empty names interleaved; quick = boundary lengths around 1, 100 and 101 chunks and the ClientHello limit + seeded lengths, thorough = every length 1..57138 for both prefixes; Mal lines: entry lists that are malformed under the prefix; non-trivial = multi-chunk round trips"},
         assumptions=["TLC checks the chunk arithmetic on scaled constants (budget 3, radix 3) for every length up to 3x the third-digit point; the real constants are covered by running the real functions on every length (thorough) and judging each run with TLC",
-                     "payload content is random base64 (the alphabet the library feeds in); content-independence of the chunking is assumed beyond that"],
+                     "payload content is random over four alphabets: base64 (what the library feeds in), base64 with percent signs and format verbs, printable ASCII, arbitrary bytes"],
     )
 
 
